@@ -87,10 +87,10 @@ def shared_raw_args(P, R, rid):
                 isinstance(c.args[0].elts[0], ast.Name) and c.args[0].elts[0].id in params]
         for c in filt:
             p = c.args[0].elts[0].id
-            bad = [x for x in own_nodes(u.node) if isinstance(x, ast.Call) and x.lineno > c.lineno and x is not c and
+            bad = [x for x in own_nodes(u.node) if isinstance(x, ast.Call) and (x.lineno, x.col_offset) > (c.lineno, c.col_offset) and x is not c and
                    any(isinstance(a, ast.Name) and a.id == p for a in x.args) and
                    call_text(x).startswith('self.supvisors.') and 'logger' not in call_text(x) and
-                   'mapper.filter' not in call_text(x) and not _reassigned_between(u, p, c.lineno, x.lineno)]
+                   'mapper.filter' not in call_text(x) and not _reassigned_between(u, p, c, x)]
             R.check(rid, not bad, 'RPCInterface.%s passes only the resolved identifier on' % name, 'raw-arg|%s' % name,
                     u.loc(bad[0]) if bad else u.loc(c), 'RPCInterface.%s resolves `%s` through mapper.filter() but then '
                     'passes the raw parameter to %s' % (name, p, [call_text(x) for x in bad]))
